@@ -10,16 +10,12 @@ CFG = {
     "module": "Swat4.Properties.C12",
     "theorems": [
         "Swat4.C12.facts_item_id",
-        "Swat4.C12.never_queued",
-        "Swat4.C12.enqueue_one_batch",
         "Swat4.C12.no_leak",
-        "Swat4.C12.pop_nonpositive",
         "Swat4.C12.ghost_faithful",
         "Swat4.C12.ghost_popped",
         "Swat4.C12.batch_is_log",
         "Swat4.C12.init_of_calls",
         "Swat4.C12.ids_fresh",
-        "Swat4.C12.enqueue_uses_fresh",
         "Swat4.C12.conservation",
         "Swat4.C12.integrity",
         "Swat4.C12.at_most_once",
@@ -65,6 +61,14 @@ CFG = {
         "Swat4.C12.facts_item_id_uses",
         "Swat4.C12.facts_pop_atomic",
     ],
+    # proved in the Lean files and used by other proofs, but NOT audited as property theorems: each is a
+    # read-back of a definition, glue between two names, true by type, or a corollary of an audited theorem
+    "supporting": [
+        {"name": "Swat4.C12.never_queued", "why": "read-back of the definition (`QOp.begin` unfolded; the system-level statements are never_queued_explicit / never_queued_explicit_sys)"},
+        {"name": "Swat4.C12.enqueue_one_batch", "why": "read-back of the definition (`qstep` on `.enqueue … .start` by `rfl`)"},
+        {"name": "Swat4.C12.enqueue_uses_fresh", "why": "read-back of the definition (`qstep` / `enqueueBatch` by `rfl`; the reachable-state statement is ids_fresh)"},
+        {"name": "Swat4.C12.pop_nonpositive", "why": "read-back of the definition (`QOp.begin` unfolded)"},
+    ],
     "shards": (4, 16),
     "nontrivial": _nontrivial,
     "rule": "(a) sequential histories of AddBetween / PopMany(n) / clock advance on the real probes repository with ready and expiry times before, "
@@ -98,7 +102,7 @@ CFG = {
                 "ready time of its enqueue), at_most_once, batch_size (<= n at every pc), not_early (monotone clock: ready <= clock at the pop "
                 "batch), not_late (returned => no expiry or expiry >= clock at the pop batch; otherwise counted), no_leak_run / no_leak_finish "
                 "(C10 invariant at every reachable state), conservation_final / timing_final (same in the state after the driver's completion "
-                "phase), never_queued, enqueue_one_batch, enqueue_uses_fresh, pop_nonpositive. The clause 'a probe whose ready time is not earlier than its expiry is never queued' "
+                "phase). The clause 'a probe whose ready time is not earlier than its expiry is never queued' "
                 "is FALSE of model and code for an implicit ready time: never_queued_explicit (the call issues no command IFF both bounds are explicit and after >= before), "
                 "never_queued_explicit_sys / ready_past_expiry_only_implicit (every interleaving: each accepted enqueue record is attributed to its producing call enqueue probe after expires, and an explicit after is the record's ready time and strictly before an explicit expiry; "
                 "hence a queued probe with ready >= expiry can only stem from an implicit ready time), "
